@@ -237,6 +237,10 @@ func main() {
 		cmdC17Check(os.Args[2:])
 	case "edit-check":
 		cmdEditCheck(os.Args[2:])
+	case "lsp-check":
+		cmdLspCheck(os.Args[2:])
+	case "nav-check":
+		cmdNavCheck(os.Args[2:])
 	case "conc":
 		cmdConc(os.Args[2:])
 	case "store-replay":
